@@ -3,10 +3,13 @@ CONSTANTS
   Subs = {1, 2}
   Amounts = {1, 2}
   Funds <- FundsSmall
+  NativeMetas = {1}
+  SpecialIds = {1, 2, 3, 4, 5, 6, 7, 8}
+  Bindings <- PlainBinding
   MaxOps = 3
   MaxMinted = 3
   EmitAt = 0
-  ProbeDepth = 1
+  ProbeDepth = 0
 INIT GInit
 NEXT GNextC
 VIEW GView
